@@ -6,6 +6,7 @@ cd /verif
 ids="$@"; [ -z "$ids" ] && ids=$(ls seeded)
 for id in $ids; do
   prop=${id%%-*}
+  if grep -q superseded_by_fix seeded/$id/meta.json 2>/dev/null; then echo "$id skipped: superseded by a fix in /repo"; continue; fi
   src=$(mktemp -d /verif/.scratch/reseed-XXXX); cp seeded/$id/patch.diff seeded/$id/demo.py seeded/$id/notes.md $src/
   checks=$(python3 -c "import json;print(' '.join(json.load(open('seeded/$id/meta.json')).get('checks',{'$prop':0}).keys()))" 2>/dev/null || echo $prop)
   /venv/bin/python tools/confirm_seeded.py $src $id $prop $checks 2>&1 | tail -1 | cut -c1-220
